@@ -276,6 +276,94 @@ pub struct Db {
     pub poisoned: bool,
 }
 
+impl Db {
+    /// Whole-file page census through the verif facade (C11 at SQL level): every page 1..total_pages must be exactly
+    /// one of: node of exactly one tree reachable from the catalogue (tables, indexes, the two catalogue trees), link of
+    /// the overflow chain of exactly one LEAF cell, member of the free list. Interior dividers that carry an overflow
+    /// pointer are non-owning copies (listed alias finding). Only meaningful when no invisible relation exists (the
+    /// caller checks that with the model): the catalogue walk sees the relations of a fresh snapshot.
+    pub fn page_census(&self) -> Result<Vec<String>, String> {
+        use axmosdb::verif::facade::{catalog_roots, dump_btree_page, dump_overflow_page, free_list, header_of, META_INDEX_ROOT, META_TABLE_ROOT};
+        let Some(db) = self.db.as_ref() else { return Err("database closed".into()) };
+        catch(|| -> Result<Vec<String>, String> {
+            let pager = db.pager().clone();
+            let total = header_of(&pager).total_pages;
+            let mut owners: BTreeMap<u64, Vec<String>> = BTreeMap::new();
+            let mut roots = vec![("meta_table".to_string(), META_TABLE_ROOT), ("meta_index".to_string(), META_INDEX_ROOT)];
+            for e in catalog_roots(db)? {
+                roots.push((e.name.clone(), e.root));
+            }
+            let mut problems = vec![];
+            for (name, root) in roots {
+                let mut stack = vec![root];
+                let mut guard = 0u64;
+                while let Some(id) = stack.pop() {
+                    guard += 1;
+                    if guard > total + 8 {
+                        problems.push(format!("tree {name}: more nodes than the file has pages (cycle)"));
+                        break;
+                    }
+                    owners.entry(id).or_default().push(format!("node of {name}"));
+                    let page = match dump_btree_page(&pager, id) {
+                        Ok(p) => p,
+                        Err(e) => {
+                            problems.push(format!("tree {name}: page {id} unreadable as a tree page: {e}"));
+                            continue;
+                        }
+                    };
+                    if page.is_leaf {
+                        for (slot, cell) in page.cells.iter().enumerate() {
+                            let mut cur = cell.overflow_page;
+                            let mut steps = 0u64;
+                            while let Some(o) = cur {
+                                steps += 1;
+                                if steps > total {
+                                    problems.push(format!("cyclic overflow chain at {name} page {id} slot {slot}"));
+                                    break;
+                                }
+                                owners.entry(o).or_default().push(format!("chain of {name} page {id} slot {slot}"));
+                                cur = match dump_overflow_page(&pager, o) {
+                                    Ok(x) => x.0,
+                                    Err(e) => {
+                                        problems.push(format!("overflow page {o} of {name} unreadable: {e}"));
+                                        None
+                                    }
+                                };
+                            }
+                        }
+                    } else {
+                        for cell in &page.cells {
+                            if let Some(c) = cell.left_child {
+                                stack.push(c);
+                            }
+                        }
+                        if let Some(c) = page.right_child {
+                            stack.push(c);
+                        }
+                    }
+                }
+            }
+            for id in free_list(&pager)? {
+                owners.entry(id).or_default().push("free list".to_string());
+            }
+            for id in 1..total {
+                match owners.get(&id) {
+                    None => problems.push(format!("page {id} has no owner (in no tree, in no overflow chain of a leaf cell, not in the free list): lost")),
+                    Some(o) if o.len() != 1 => problems.push(format!("page {id} has {} owners: {}", o.len(), o.join(" + "))),
+                    _ => {}
+                }
+            }
+            for id in owners.keys() {
+                if *id == 0 || *id >= total {
+                    problems.push(format!("page {id} is referenced but the file has only {total} pages"));
+                }
+            }
+            Ok(problems)
+        })
+        .map_err(|e| format!("census panicked: {e}"))?
+    }
+}
+
 fn catch<T>(f: impl FnOnce() -> T) -> Result<T, String> {
     std::panic::catch_unwind(std::panic::AssertUnwindSafe(f)).map_err(|e| {
         if let Some(s) = e.downcast_ref::<&str>() {
